@@ -22,8 +22,32 @@ def _q():
 
 
 # --------------------------------------------------------------------------- safe printer
-def safe_text(tree, **opts) -> str:
-    """print with the real printer, but wrap every sub-expression in parentheses."""
+def _own_links(node, parent=None):
+    """parent links computed HERE (single / list / tuple / dict valued fields alike), so that the decision to
+    parenthesise does not depend on the printer's own `_fix_parent_links`"""
+    from edb.common.ast import base as astbase
+    qlast = _q()['qlast']
+    try:
+        object.__setattr__(node, '_c01parent', parent)
+    except Exception:
+        return
+    for name, val in astbase.iter_fields(node, include_meta=True):
+        if name in ('span', 'system_comment'):
+            continue
+        vals = [val] if isinstance(val, qlast.Base) else \
+            list(val.values()) if isinstance(val, dict) else list(val) if isinstance(val, (list, tuple)) else []
+        for v in vals:
+            if isinstance(v, qlast.Base):
+                _own_links(v, node)
+            elif isinstance(v, (list, tuple)):
+                for w in v:
+                    if isinstance(w, qlast.Base):
+                        _own_links(w, node)
+
+
+def safe_text(tree, wrap_ddl=False, **opts) -> str:
+    """print with the real printer, but wrap every sub-expression in parentheses.
+    wrap_ddl: also wrap expressions that are direct children of DDL nodes (constraint arguments, index kwargs …)."""
     q = _q()
     qlast, cg = q['qlast'], q['cg']
     WRAP = (qlast.BinOp, qlast.UnaryOp, qlast.IsOp, qlast.IfElse, qlast.TypeCast, qlast.DetachedExpr,
@@ -40,8 +64,8 @@ def safe_text(tree, **opts) -> str:
         def visit(self, node, **kw):
             wrap = False
             if isinstance(node, WRAP):
-                p = getattr(node, '_parent', None)
-                if isinstance(p, PARENTS):
+                p = getattr(node, '_c01parent', None)
+                if isinstance(p, PARENTS) or (wrap_ddl and isinstance(p, qlast.DDL) and not isinstance(node, qlast.ShapeElement)):
                     wrap = True
                     if isinstance(p, qlast.ShapeElement) and p.expr is node:
                         wrap = False
@@ -59,6 +83,8 @@ def safe_text(tree, **opts) -> str:
             if wrap:
                 self.write(')')
 
+    for t in (tree if isinstance(tree, (list, tuple)) else [tree]):
+        _own_links(t)
     return SafeGen.to_source(tree, **opts)
 
 
@@ -383,6 +409,52 @@ class Gen:
         self._ctx_names = sorted(self._ctxs)
         self._fillers = self.fillers()
         return self
+
+
+def slot_fillers(ql, OUT):
+    """every statement kind and every prefix / open form, to be placed directly in each Expr-capable field"""
+    z = lambda: ql.Path(steps=[ql.ObjectRef(name='z')])
+    se = lambda: ql.ShapeElement(expr=ql.Path(steps=[ql.Ptr(name='a', direction=OUT)]), compexpr=z())
+    T = lambda: ql.TypeName(maintype=ql.ObjectRef(name='T'))
+    return {
+        'select': lambda: ql.SelectQuery(result=z()),
+        'select-filter': lambda: ql.SelectQuery(result=z(), where=ql.BinOp(left=z(), op='=', right=ql.Constant.integer(1))),
+        'with-select': lambda: ql.SelectQuery(result=z(), aliases=[ql.AliasedExpr(alias='w', expr=ql.Constant.integer(1))]),
+        'insert': lambda: ql.InsertQuery(subject=ql.ObjectRef(name='Foo'), shape=[se()]),
+        'update': lambda: ql.UpdateQuery(subject=z(), shape=[se()]),
+        'delete': lambda: ql.DeleteQuery(subject=z()),
+        'for': lambda: ql.ForQuery(iterator_alias='i', iterator=z(), result=z()),
+        'group': lambda: ql.GroupQuery(subject=z(), using=None, by=[ql.GroupingSimple(
+            element=ql.Path(steps=[ql.Ptr(name='a', direction=OUT)], partial=True))]),
+        'neg': lambda: ql.UnaryOp(op='-', operand=z()),
+        'plus': lambda: ql.UnaryOp(op='+', operand=z()),
+        'not': lambda: ql.UnaryOp(op='NOT', operand=z()),
+        'exists': lambda: ql.UnaryOp(op='EXISTS', operand=z()),
+        'distinct': lambda: ql.UnaryOp(op='DISTINCT', operand=z()),
+        'negconst': lambda: ql.Constant(kind=ql.ConstantKind.INTEGER, value='-1'),
+        'cast': lambda: ql.TypeCast(type=T(), expr=z()),
+        'cast-opt': lambda: ql.TypeCast(type=T(), expr=z(), cardinality_mod=ql.CardinalityModifier.Optional),
+        'detached': lambda: ql.DetachedExpr(expr=z()),
+        'global': lambda: ql.GlobalExpr(name=ql.ObjectRef(name='g')),
+        'ifelse-py': lambda: ql.IfElse(if_expr=z(), condition=z(), else_expr=z(), python_style=True),
+        'ifelse': lambda: ql.IfElse(if_expr=z(), condition=z(), else_expr=z()),
+        'binop': lambda: ql.BinOp(left=z(), op='+', right=z()),
+        'union': lambda: ql.BinOp(left=z(), op='UNION', right=z()),
+        'isop': lambda: ql.IsOp(left=z(), op='IS', right=T()),
+        'shape': lambda: ql.Shape(expr=z(), elements=[se()]),
+        'free-shape': lambda: ql.Shape(expr=None, elements=[se()]),
+        'index': lambda: ql.Indirection(arg=z(), indirection=[ql.Index(index=ql.Constant.integer(0))]),
+        'path': lambda: ql.Path(steps=[ql.ObjectRef(name='z'), ql.Ptr(name='p', direction=OUT)]),
+        'partial': lambda: ql.Path(steps=[ql.Ptr(name='p', direction=OUT)], partial=True),
+        'set': lambda: ql.Set(elements=[z(), z()]),
+        'tuple': lambda: ql.Tuple(elements=[z(), z()]),
+        'ntuple': lambda: ql.NamedTuple(elements=[ql.TupleElement(name=ql.Ptr(name='a'), val=z())]),
+        'call-kw': lambda: ql.FunctionCall(func='f', args=[z()], kwargs={'k': ql.SelectQuery(result=z())}),
+        'introspect': lambda: ql.Introspect(type=T()),
+        'interp': lambda: ql.StrInterp(prefix='a', interpolations=[ql.StrInterpFragment(expr=z(), suffix='b')]),
+        'param': lambda: ql.Parameter(name='p'),
+        'str': lambda: ql.Constant.string('s'),
+    }
 
 
 def _is_xy(e, ql):
